@@ -87,6 +87,8 @@ def run(ctx):
     supported = {True: 0, False: 0}
     for s in range(nsets):
         defs = defgen.gen_set(rng, per, start_serial=s * per)
+        if s == 0:
+            defs = defgen.crafted() + defs
         res = gendefs.run_codegen(hdrs + defs, seed=ctx.seed + s)
         if res.get("gen_error"):
             fails.append({"what": "the generator fails on a supported definition set: " + res["gen_error"][:400],
